@@ -16,6 +16,7 @@ import IocProofs.Lemmas.ValueTwice
 import IocProofs.Lemmas.ValueBinder
 import IocProofs.Lemmas.ValueKeys
 import IocProofs.Lemmas.SemStages
+import IocProofs.Lemmas.SemUnmarshall
 namespace Ioc.C17
 open Ioc Ioc.Tag Ioc.Value
 
@@ -447,5 +448,66 @@ theorem C17_decoder_options :
 theorem C17_unmarshall_hooks :
     Facts.unmarshallHooks = [("mapstructure.StringToTimeDurationHookFunc", ""), ("mapstructure.StringToTimeHookFunc", "args[0]")] ∧
     Facts.unmarshallArgNames = [("unmarshallArgTagName", "mapper"), ("unmarshallArgTimeLayout", "timeLayout")] := by decide
+
+/-! ### Property.Unmarshall, newDecodeConfig and reflectx.SetValue, REGENERATED (interpretation Ioc.SemUnmarshall: what
+    mapstructure's `NewDecoder` and `Decode` answer for a configuration are parameters) -/
+section unmarshall
+open Ioc.Go Ioc.Sem
+
+/-- Unmarshall: a property that is not a Configuration property refuses; a nil value decodes nothing and writes nothing; any
+    other value is decoded ONCE, with the duration hook, the time hook for the FIRST `timeLayout` value when that argument is
+    present, and the tag name `yaml` unless `mapper` names another — and the field is written exactly when NewDecoder and
+    Decode both succeed; their errors come back wrapped, never swallowed -/
+theorem C17_code_Unmarshall (p : UMP) (w : UW) :
+    (p.isConf = false → ∀ cv, run (umPrims p) Progs.prop_Unmarshall [cv] w = some (.str "not allowed to unmarshall", w)) ∧
+    (p.isConf = true → run (umPrims p) Progs.prop_Unmarshall [.nil] w = some (.nil, w)) ∧
+    (p.isConf = true → p.argsOk →
+      run (umPrims p) Progs.prop_Unmarshall [.ref 0 72] w = some (encOptErrS (unmarshallS p w).1, (unmarshallS p w).2)) :=
+  ⟨fun h cv => unmarshall_notConf p cv w h, unmarshall_nil p w, unmarshall_value p w⟩
+
+/-- what `unmarshallS` is: the configuration, then NewDecoder, then Decode, then the write -/
+theorem C17_code_Unmarshall_outcome (p : UMP) (w : UW) :
+    ((unmarshallS p w).1 = none ↔ p.newDecoderErr (unmarshallCfg p) = none ∧ p.decodeErr (unmarshallCfg p) = none) ∧
+    ((unmarshallS p w).2.set = true ↔ w.set = true ∨ (unmarshallS p w).1 = none) ∧
+    (unmarshallCfg p).hooks.head? = some "duration" := by
+  refine ⟨?_, ?_, rfl⟩
+  · cases hn : p.newDecoderErr (unmarshallCfg p) <;> cases hd : p.decodeErr (unmarshallCfg p) <;> simp [unmarshallS, hn, hd]
+  · cases hn : p.newDecoderErr (unmarshallCfg p) <;> cases hd : p.decodeErr (unmarshallCfg p) <;> simp [unmarshallS, hn, hd]
+
+/-- newDecodeConfig: the switches of the composite literal as the syntax tree has them -/
+theorem C17_code_newDecodeConfig (v hooks : Go.Val) :
+    run ndcPrims Progs.prop_newDecodeConfig [v, hooks] () =
+      some (.tuple [.str "DecoderConfig", .tuple [.str "compose", hooks], .bool false, .bool false, .bool false, .bool true,
+                    .bool false, .nil, v, .str "yaml", .bool false, .nil], ()) :=
+  newDecodeConfig_sem v hooks
+
+/-- reflectx.SetValue: the setter runs once on a FRESH zero value; on failure the field keeps what it held and the error is
+    returned as it is; on success the field holds the new value -/
+theorem C17_code_SetValue {σ : Type} (isPtr : Bool) (setter : Nat → σ → Option String × σ) (w : SVW σ) :
+    run (svPrims isPtr setter) Progs.reflectx_SetValue [.str "value", .str "setter"] w =
+      some (encOptErrS (setter w.fresh w.inner).1,
+        { cell := if (setter w.fresh w.inner).1.isNone then some (w.fresh, isPtr) else w.cell,
+          fresh := w.fresh + 1, inner := (setter w.fresh w.inner).2 }) :=
+  setValue_sem isPtr setter w
+
+/-- SetConfiguration / Args / SetArg / AddArg go to the property's own maps -/
+theorem C17_code_property_maps (has : AM → String → List String → Bool) (fmtKey : String → String) (w : PW) :
+    (∀ path v, run (pmPrims has fmtKey) Progs.prop_SetConfiguration [.str path, v] w =
+      some (.tuple [], { w with confs := (path, v) :: w.confs.filter (fun e => e.1 != path) })) ∧
+    run (pmPrims has fmtKey) Progs.prop_Args [] w = some (.ref 0 78, w) ∧
+    (∀ k vs, run (pmPrims has fmtKey) Progs.prop_SetArg [.str k, strsVal vs] w =
+      some (.tuple [], { w with args := if k = "" then w.args else amSet (fmtKey k) vs w.args })) ∧
+    (∀ k vs, run (pmPrims has fmtKey) Progs.prop_AddArg [.str k, strsVal vs] w =
+      some (.tuple [], { w with args := if k = "" then w.args else amSet (fmtKey k) ((amGet (fmtKey k) w.args).getD [] ++ vs) w.args })) :=
+  ⟨fun path v => setConfiguration_sem has fmtKey path v w, args_sem has fmtKey w,
+   fun k vs => setArg_sem has fmtKey k vs w, fun k vs => addArg_sem has fmtKey k vs w⟩
+
+/-- non-vacuity: a property with `timeLayout=2006` and `mapper=json` whose decode fails -/
+example : (unmarshallS ⟨true, some ["2006"], some ["json"], fun _ => none, fun c => if c.tagName = "json" then some "boom" else none⟩
+    ⟨none, [], false⟩) =
+    (some "unmarshall property configuration failed: mapstructure decode: boom",
+      ⟨some ⟨["duration", "time:2006"], "json"⟩, [⟨["duration", "time:2006"], "json"⟩], false⟩) := by decide
+
+end unmarshall
 
 end Ioc.C17
